@@ -485,6 +485,12 @@ def layout_metadata_and_stream(facts, orc):
     if kinds[:1] == ["bytes"]:
         mk = seq[0][2]
         got = [E.evalc(x) for x in mk[3]] if isinstance(mk, tuple) and mk[0] == "agg" else None
+        if got is None and isinstance(mk, tuple) and mk[0] == "c" and isinstance(mk[2], str) and mk[2] in facts.bodies:
+            # a named constant (`const STREAM_MARKER: [u8; 4] = [..]`): read the array its initialiser builds
+            for _bi, _si, st_ in facts.bodies[mk[2]].iter_stmts():
+                if st_["k"] == "assign" and st_["dst"]["l"] == 0 and not st_["dst"]["p"] and st_["rv"]["k"] == "agg" \
+                        and st_["rv"].get("ak") == "array" and all(o_.get("k") == "const" for o_ in st_["rv"]["ops"]):
+                    got = [o_.get("v") for o_ in st_["rv"]["ops"]]
         t.row(got == orc["marker"], w.id, "marker", "stream marker bytes are %s, RFC says %s (fLaC)" % (got, orc["marker"]),
               {"marker": got}, w.loc())
     if kinds == ["bytes", "comp", "loop", "loop"]:
